@@ -5,7 +5,7 @@
 #   tools/round6.sh <Cxx> <mN> <check> [<check> ...]
 p="$1"; m="$2"; shift 2
 cd /verif
-sfx=""; [ "$m" = m12 ] && sfx=b
+sfx=""; [ "$m" = m12 ] && sfx=b; [ "$m" = m13 ] && sfx=c
 d="/verif/seeded/$p-$m"; src="/tmp/adv/$p$sfx/out"
 mkdir -p "$d"
 cp "$src/patch.diff" "$src/demo.rs" "$d/" || exit 2
